@@ -290,7 +290,12 @@ def build(case, which):
     from graphtage import json as gj
     if case.get("api"):
         return build_spec(case[which])
-    return gj.build_tree(case[which], graphtage.BuildOptions(**case.get("opts", {})))
+    t = gj.build_tree(case[which], graphtage.BuildOptions(**case.get("opts", {})))
+    if case.get("plist"):
+        # what the plist loader returns: the tree wrapped in a PLISTNode (whose edit is an EditCollection)
+        from graphtage.plist import PLISTNode
+        t = PLISTNode(t)
+    return t
 
 
 def drive(case, record_root):
